@@ -589,6 +589,37 @@ func runC20(c *Check) {
 			}
 		}
 	}
+	// R15: no transaction of a fetched height is passed over. In the loop over the height's
+	// blobs, an iteration ends with the blob appended to the batch — or the loop is left (the
+	// remainder is pushed, R11). A `continue` that skips a blob (a "seen this id already"
+	// filter: an id is the blob's commitment, two equal transactions in one height share it)
+	// drops it for good: the cursor moves past the height.
+	c.Doc("C20-R15", "EO: in the loop over the blobs of a fetched height no path leads from the body's entry to the next iteration without the append of the blob to the batch: every blob is released or (with the rest of the height) carried over, none is skipped.")
+	if len(txApps) > 0 {
+		hdr := loopHeaderOf(txApps[0].In.Block())
+		var head *Node
+		if hdr != nil {
+			head = g.headNode(txApps[0].Ctx, hdr)
+		}
+		if head == nil {
+			c.Unk("C20-R15", "GetNextBatch ⟂ no blob of a height is passed over", fn, "", "anchor lost: the loop over the fetched blobs")
+		} else {
+			var body []*Node
+			body = append(body, head.Succ...)
+			// only paths that stay inside the loop: leaving it (exhaustion, break) is R11's business
+			ctx0 := txApps[0].Ctx
+			outside := func(x *Node) bool {
+				if x.Ctx != ctx0 || x.In == nil || x == head {
+					return false
+				}
+				b := x.In.Block()
+				return !(b == hdr || loopHeaderOf(b) == hdr)
+			}
+			c.Decide("C20-R15", "GetNextBatch ⟂ no blob of a height is passed over", fn, p.InstrPos(txApps[0].In), "every iteration over the height's blobs appends the blob or leaves the loop",
+				"an iteration over the blobs of a fetched height can go on to the next blob without appending this one (a filter that skips it): the transaction is neither released nor carried over, and the scan position moves past its height — it is never released", g,
+				g.PathAvoiding(body, func(x *Node) bool { return x == head }, orPred(nodeSet(txApps), outside)))
+		}
+	}
 	for _, an := range txApps {
 		e := ArgTerm(an, 1)
 		inOrder := p.DeepContains(e, func(t *Term) bool {
